@@ -183,6 +183,10 @@ def numeric_edges():
             x = z + str(n)
             out += ["%s.0.0" % x, "0.%s.0" % x, "0.0.%s" % x, "1.2.3-%s" % x, "1.2.3-a.%s" % x, "1.2.3-%s.a" % x,
                     "1.2.3+%s" % x, "1.2.3-rc.%s+b" % x, "v%s.%s.%s" % (x, x, x), "1.2.3-%sa" % x, "1.2.3--%s" % x]
+    # the grammar has no length limit: long identifiers, many identifiers, long build metadata (and the same with one bad character)
+    for n in (255, 256, 257, 511, 512, 513, 1023, 1024, 1025, 2048, 4097, 20000, 70000):
+        out += ["1.0.0-" + "a" * n, "1.0.0+" + "b" * n, "1.0.0-" + ".".join(["x1"] * (n // 3)), "1.0.0-rc.1+" + ".".join(["7"] * (n // 2)), "v1.2.3-" + "a-" * (n // 2) + "z",
+                "1.0.0-" + "a" * n + "_", "1.0.0-" + ".".join(["x1"] * (n // 3)) + ".01", "1.0.0+" + "b" * n + "+", "9" * 19 + ".0.0-" + "k" * n]
     return out
 
 
